@@ -43,6 +43,15 @@ ArchiveExpect(p, k) ==
   ELSE IF ~CanStrip(CleanComps(p), k) THEN [kind |-> "skip", at |-> <<>>]
   ELSE [kind |-> "write", at |-> Strip(CleanComps(p), k)]
 
+\* Filter views: what a filtered view lets through is a function of the *cleaned* path, never of the spelling the
+\* caller used; a negated matcher hides an object under every spelling of its path.
+\*   filternot = FilterReadBucket(b, MatchNot(MatchOr(MatchPathEqual("a.b"), MatchPathContained("a"))))
+FilterNotHides(c) == c = <<"a.b">> \/ (Len(c) > 1 /\ c[1] = "a")
+\* A view prefix is configuration, not a trusted constant.  The raw path used as the prefix of a view that is
+\* nested in the view rooted at r \o <<"m">>: Map(Map(b, "m"), raw).  An invalid prefix makes every call fail;
+\* a valid one makes the view act at r \o m \o Clean(raw) \o arg - inside the inner view.
+PrefixExpect(p) == IF ~Valid(p) THEN "reject" ELSE "act"
+
 VARIABLES raw,     \* the raw path of the pending call
           op,      \* the operation
           phase,   \* "pending" | "done"
@@ -77,6 +86,11 @@ InvalidNeverActs == (~Valid(raw)) => touched = {}
 NestedViews ==
   Valid(raw) => \A r \in Roots : \A m \in {<<"m">>, <<"m", "n">>} :
       JoinClean(r \o m, raw) = JoinClean(r, m \o CleanComps(raw))
+\* a valid prefix keeps the nested view inside the inner one, whatever the root
+PrefixContained ==
+  Valid(raw) => \A r \in Roots : Under(CleanComps(r \o <<"m">>), JoinClean(r \o <<"m">>, CleanComps(raw) \o <<"b">>))
+\* the hidden set is closed under re-spelling: cleaning twice hides the same
+HiddenByCleanPath == Valid(raw) => FilterNotHides(CleanComps(raw)) = FilterNotHides(CleanRec(CleanComps(raw), <<>>, IsRooted(raw)))
 \* stripping components keeps an archive entry inside the destination
 ArchiveContained ==
   \A k \in 0..2 : LET e == ArchiveExpect(raw, k) IN
@@ -86,6 +100,7 @@ ArchiveContained ==
 Case(p) == [raw |-> p, clean |-> CleanComps(p), rooted |-> IsRooted(p), valid |-> Valid(p),
             isroot |-> IsRootPath(p),
             expect |-> [o \in Ops |-> Expect(o, p)],
+            filterNotHides |-> (Valid(p) /\ FilterNotHides(CleanComps(p))), prefixExpect |-> PrefixExpect(p),
             archive |-> [k \in {0, 1, 2} |-> ArchiveExpect(p, k)]]
 EmitCase == (Emit /\ phase = "pending" /\ op = "get") => PrintT(<<"CASE", ToJson(Case(raw))>>)
 =============================================================================
